@@ -86,6 +86,11 @@ Section Chain.
         split; [rewrite acct_of_finish, P2, I, N.eqb_refl; reflexivity|].
         intros id Hid. rewrite acct_of_finish, P2. destruct (N.eqb_spec id (a_id sd)); [congruence|reflexivity]. }
     unfold exec_tx_body in H.
+    destruct (is_ent (t_kind t)) eqn:EN.
+    { destruct (t_kind t) eqn:K; try discriminate EN. cbn [is_gov] in H.
+      destruct (t_fddeny t).
+      - cbn [negb orb] in H. destruct (reset_account _ _ _ _); discriminate.
+      - exact (Fin s sender receiver 0 Hs Ha Hb eq_refl H). }
     destruct (is_gov (t_kind t)).
     - destruct (exec_governance is_name cfg bno s t sender receiver) as [[[s1 sd'] rc']|] eqn:EG; [|discriminate].
       destruct (exec_governance_nn n0 _ _ _ _ _ _ _ _ EG Hs Ha Hb) as (N1&A1&B1&I1&I2).
